@@ -4,11 +4,12 @@ One pipeline, three properties: the Level-A monitor records the first violated c
 separately (clauses are prefixed C01_/C02_/C03_); a check reports only the clauses of its own property as
 violations, a clause of a sibling property met on the way is printed as a note.
 """
+import collections
 import json
 import os
 import re
 
-from vcheck import Inconclusive, write_ndjson
+from vcheck import Inconclusive, parse_tla_state, write_ndjson
 
 TEXT = ("Loopy.tla models loopyWriter.handle for every control item kind and processData/updateStreamAfterWrite (Level I) "
         "and, independently, the peer's view (Level A): connection and per-stream window ledgers built only from the initial "
@@ -97,6 +98,105 @@ def step_of(state_text, label):
     raise Inconclusive("unknown action label " + label)
 
 
+HDR, FRAME = 5, 16384   # HdrLen / MaxFrame of the generation configs
+
+
+def _qclass(x):
+    return 0 if x <= 0 else 1 if x < HDR else 2 if x < FRAME else 3
+
+
+def features(state_text):
+    """Branch-relevant classes of a generation-graph state (for stratified behaviour selection)."""
+    st = parse_tla_state(state_text, only={"m", "g"})
+    m, g = st["m"], st["g"]
+    al = m["al"]
+    per = {}
+    for s in m["st"]:
+        q = m["itl"][s]
+        head = ("x",)
+        if q:
+            it = q[0]
+            head = (it["k"], it["es"], _qclass(it["h"] + it["d"]), 0 if it["h"] == 0 else 1 if it["h"] < HDR else 2)
+        per[s] = (m["st"][s], _qclass(m["oiws"] - m["out"][s]), min(len(q), 2), head, q[1]["k"] if len(q) > 1 else "-",
+                  -1 if s not in al else 0 if al[0] == s else 1)
+    return {"sq": _qclass(m["sq"]), "al": al, "per": per}
+
+
+def edge_key(f, label):
+    """Edges with the same key exercise the same branch of the writer on the same class of state."""
+    m = re.match(r'(\w+)(?:\((.*)\))?\s*$', label.strip())
+    name, args = m.group(1), _split_args(m.group(2) or "")
+    per = f["per"]
+    if name in ("OpenT", "HdrT", "DataT", "EmptyEndT", "TrailersT", "CleanupT", "AbortT", "StrWUT"):
+        s = int(args[0])
+        others = tuple(sorted(v[0] for k, v in per.items() if k != s))
+        return (name, tuple(args[1:]), f["sq"], per[s], others)
+    if name == "PDT":
+        h = f["al"][0] if f["al"] else None
+        others = tuple(sorted((v[0], v[5]) for k, v in per.items() if k != h))
+        return (name, f["sq"], per.get(h), others)
+    return (name, tuple(args), f["sq"], tuple(sorted((v[0], v[1]) for v in per.values())))
+
+
+def select_behaviours(ctx, g, limit):
+    """One behaviour (BFS prefix + the transition) per edge key, shortest first; the remaining budget is
+    filled with a seeded sample of the other transitions."""
+    parent, order = {}, []
+    q = collections.deque()
+    for i in g.init:
+        parent[i] = None
+        q.append(i)
+    while q:
+        u = q.popleft()
+        order.append(u)
+        for a, v in g.edges.get(u, ()):
+            if v not in parent:
+                parent[v] = (u, a)
+                q.append(v)
+    cache = {}
+
+    def step(a):
+        if a not in cache:
+            cache[a] = step_of(None, a)
+        return cache[a]
+
+    def path_to(u):
+        p = []
+        while parent[u] is not None:
+            u, a = parent[u]
+            p.append(step(a))
+        p.reverse()
+        return p
+    feat = {}
+    core, rest, seen = [], [], set()
+    for u in order:
+        es = g.edges.get(u, ())
+        if not es:
+            continue
+        if u not in feat:
+            feat[u] = features(g.nodes[u])
+        for a, v in es:
+            k = edge_key(feat[u], a)
+            if k in seen:
+                rest.append((u, a))
+            else:
+                seen.add(k)
+                core.append((u, a))
+    nkeys, nedges = len(core), len(core) + len(rest)
+    if limit is not None and len(core) > limit:
+        ctx.rng.shuffle(core)
+        core = core[:limit]
+        rest = []
+    if limit is not None:
+        ctx.rng.shuffle(rest)
+        rest = rest[:max(0, limit - len(core))]
+    behs = [path_to(u) + [step(a)] for u, a in core + rest]
+    ctx.cov["behaviours_generated"] += len(behs)
+    ctx.log("SELECT %d behaviours: %d of %d branch classes, %d of %d transitions" %
+            (len(behs), len(core), nkeys, len(behs), nedges))
+    return behs
+
+
 def cfg_consts(ctx, cfg):
     txt = open(os.path.join(ctx.specdir, cfg)).read()
 
@@ -105,28 +205,46 @@ def cfg_consts(ctx, cfg):
     return {"srv": g("ServerSide") == "TRUE", "conn": int(g("InitConn")), "iws": int(g("InitIWS")), "ns": 2}
 
 
-def judge(ctx, prop, res, tpath, what):
+def _note(ctx, prop, res, what):
     if res["drift_count"] and res["drift"].startswith("sibling-property clause"):
         print("NOTE property=%s %s at trace line %d of %s (not a clause of %s; judged by that property's own check)" %
               (prop, res["drift"], res["drift_line"], what, prop), flush=True)
-    if res["accepted"]:
-        return
-    idx, seg = ctx.trace_segment(tpath, res["line"])
-    # keep the reset line, and the steps up to the failing one
-    rel = None
-    n = 0
+
+
+def _locate(tpath, line):
+    """(index of the reset-delimited segment, its lines up to `line`, 0-based offset of `line` in it)."""
+    seg, idx = [], -1
     with open(tpath) as f:
-        start = 0
         for i, ln in enumerate(f, 1):
             if '"ev":"reset"' in ln:
-                start = i
-            if i == res["line"]:
-                rel = i - start
+                seg, idx = [], idx + 1
+            seg.append(ln.rstrip("\n"))
+            if i == line:
                 break
-    bad = seg[rel] if rel is not None and rel < len(seg) else ""
-    ctx.violation("%s: clause %s at trace line %d (behaviour %d, step %s): %s" %
-                  (what, res["clause"], res["line"], idx, rel, bad[:300]),
-                  {"clause": res["clause"], "segment": seg[:(rel or 0) + 1][-120:], "header": seg[:1]})
+    return idx, seg, len(seg) - 1
+
+
+def judge(ctx, prop, res, tpath, what, rerun):
+    """A rejection is a VIOLATION only if it reproduces: rerun(idx) executes the same behaviour / seed again and
+    returns the path of a fresh trace, which must be rejected with a clause of the same property."""
+    _note(ctx, prop, res, what)
+    if res["accepted"]:
+        return
+    idx, seg, rel = _locate(tpath, res["line"])
+    tcfg = "LoopyTrace%s.cfg" % prop
+    again = None
+    for attempt in range(3):   # applySettings iterates a Go map: the order may differ between executions
+        r2 = ctx.validate("LoopyTrace", tcfg, rerun(idx, attempt), timeout=1500, count_resets=False)
+        if not r2["accepted"]:
+            again = r2
+            break
+    if again is None:
+        print("UNREPRODUCED property=%s %s: clause %s at trace line %d did not reproduce in 3 re-executions" %
+              (prop, what, res["clause"], res["line"]), flush=True)
+        raise Inconclusive("unreproduced rejection (%s, clause %s); artefact %s" % (what, res["clause"], tpath))
+    ctx.violation("%s: clause %s at trace line %d (behaviour %d, step %d; reproduced with clause %s): %s" %
+                  (what, res["clause"], res["line"], idx, rel, again["clause"], seg[-1][:300]),
+                  {"clause": res["clause"], "header": seg[:1], "segment": seg[-120:]})
 
 
 def run_loopy(ctx, prop):
@@ -143,12 +261,12 @@ def run_loopy(ctx, prop):
         ctx.neg("LoopyMC", cfg, expect=inv, workers=4)
     # 3. real-size behaviours: one per transition of the (view-reduced) state graphs
     binary = ctx.go_build("internal/transport", name="loopy", only=r"zz_verif_loopy_")
-    gens = ctx.pick(["LoopyGenS.cfg", "LoopyGenC.cfg"], ["LoopyGenS.cfg", "LoopyGenC.cfg", "LoopyGenS2.cfg", "LoopyGenC2.cfg"])
-    per = ctx.pick(2500, None)
+    gens = ctx.pick(["LoopyGenS.cfg", "LoopyGenC.cfg"], ["LoopyGenST.cfg", "LoopyGenCT.cfg", "LoopyGenS2.cfg", "LoopyGenC2.cfg"])
+    per = ctx.pick(1500, 8000)
     for cfg in gens:
-        g = ctx.dump_graph("LoopyMC", cfg, workers=8)
+        g = ctx.dump_graph("LoopyMC", cfg, workers=ctx.pick(4, 8))
         c = cfg_consts(ctx, cfg)
-        behs = [dict(c, steps=b) for b in ctx.edge_cover(g, step_of, limit=per)]
+        behs = [dict(c, steps=b) for b in select_behaviours(ctx, g, per)]
         tag = cfg[:-4]
         bpath = os.path.join(ctx.run, "beh-%s.ndjson" % tag)
         tpath = os.path.join(ctx.run, "trace-replay-%s.ndjson" % tag)
@@ -157,7 +275,14 @@ def run_loopy(ctx, prop):
         for b in behs:
             ctx.count(b, nontrivial=sum(1 for s in b["steps"] if s["k"] == "data") >= 1)
         ctx.sample(behs[len(behs) // 2])
-        judge(ctx, prop, ctx.validate("LoopyTrace", tcfg, tpath, timeout=1500), tpath, "replay of TLC behaviours (%s)" % tag)
+
+        def rerun(idx, attempt, behs=behs, tag=tag):
+            b1 = os.path.join(ctx.run, "beh-%s-re%d.ndjson" % (tag, attempt))
+            t1 = os.path.join(ctx.run, "trace-replay-%s-re%d.ndjson" % (tag, attempt))
+            write_ndjson(b1, [behs[idx]])
+            ctx.driver(binary, "TestVerifLoopyReplay", {"VERIF_BEHAVIOURS": b1, "VERIF_OUT": t1})
+            return t1
+        judge(ctx, prop, ctx.validate("LoopyTrace", tcfg, tpath, timeout=1500), tpath, "replay of TLC behaviours (%s)" % tag, rerun)
     # 4. seeded random long histories
     chunks = ctx.pick(1, 6)
     n = ctx.pick(12, 25)
@@ -165,11 +290,19 @@ def run_loopy(ctx, prop):
     for i in range(chunks):
         tpath2 = os.path.join(ctx.run, "trace-random-%d.ndjson" % i)
         sd = ctx.seed if i == 0 else ctx.seed * 1000 + i
-        ctx.driver(binary, "TestVerifLoopyRandom", {"VERIF_OUT": tpath2, "VERIF_N": n, "VERIF_STEPS": steps, "VERIF_SEED": sd})
+        env = {"VERIF_OUT": tpath2, "VERIF_N": n, "VERIF_STEPS": steps, "VERIF_SEED": sd}
+        ctx.driver(binary, "TestVerifLoopyRandom", env)
         ctx.count({"random_runs": n, "steps": steps, "seed": sd}, n=n)
-        judge(ctx, prop, ctx.validate("LoopyTrace", tcfg, tpath2, timeout=1500), tpath2, "random histories seed %d" % sd)
-    ctx.cov["rule"] = ("behaviours = edge cover of the TLC state graphs of LoopyMC under the real-size generation configs (BFS prefix + "
-                       "one transition, then processData until empty), executed step by step on a real loopyWriter; non-trivial = at "
+
+        def rerun(idx, attempt, env=env, i=i):
+            t1 = os.path.join(ctx.run, "trace-random-%d-re%d.ndjson" % (i, attempt))
+            ctx.driver(binary, "TestVerifLoopyRandom", dict(env, VERIF_OUT=t1))
+            return t1
+        judge(ctx, prop, ctx.validate("LoopyTrace", tcfg, tpath2, timeout=1500), tpath2, "random histories seed %d" % sd, rerun)
+    ctx.cov["rule"] = ("behaviours = transitions of the TLC state graphs of LoopyMC under the real-size generation configs (BFS prefix + "
+                       "one transition, then processData until empty), one per branch class (action with its parameters x quota / "
+                       "queue-head / list-position classes of the affected stream) first and a seeded sample of the rest up to the "
+                       "tier's cap, executed step by step on a real loopyWriter; non-trivial = at "
                        "least one data item; distinct by configuration and step sequence; plus seeded random histories of several "
                        "hundred items with a final quiescent phase")
     ctx.assumptions += ["the independent golang.org/x/net/http2 Framer decodes the written bytes faithfully",
